@@ -56,7 +56,7 @@ def gen_population(rng):
     _ensure()
     syms = sorted(_CLASSES)
     n = rng.randint(1, 3)
-    first = rng.choice(syms)
+    first = "Tlm" if rng.random() < 0.12 else rng.choice(syms)
     out = [first]
     for _ in range(n - 1):
         out.append(first if rng.random() < 0.5 else rng.choice(syms))
@@ -130,7 +130,7 @@ def gen_op(rng, state):
     op = rng.choices(
         ["set_values", "set_lower", "set_upper", "set_fixed", "set_label", "reset1", "reset_all", "copy", "deepcopy", "copy_circuit",
          "text", "set_default", "refused", "sub_edit", "mutate_returned"],
-        [3, 3.5, 3.5, 1.5, 1, 1.5, 1.2, 1.5, 1.5, 1, 1.5, 1, 2.5, 0.6, 0.8],
+        [3, 3.5, 3.5, 1.5, 1, 1.5, 1.2, 1.5, 1.5, 1, 1.5, 1, 2.5, 1.0, 0.8],
     )[0]
     if not names and op in ("set_values", "set_lower", "set_upper", "set_fixed", "reset1", "set_default", "refused"):
         op = "copy"
@@ -168,7 +168,7 @@ def gen_op(rng, state):
         cands = [v for v in (dv * 2.0, dv / 2.0, dv * 1.1, 0.5, 3.0, 42.0, 1e-3) if lo < v < hi and v != dv]
         return {"op": "set_default", "slot": i, "key": k, "value": rng.choice(cands) if cands else dv}
     if op == "sub_edit":
-        return {"op": "sub_edit", "slot": i, "value": rng.choice([2.0, 7.0, 0.25])}
+        return {"op": "sub_edit", "slot": i, "value": rng.choice([2.0, 7.0, 0.25]), "how": rng.choice(["value", "append", "append"]), "which": rng.randrange(8)}
     if op == "mutate_returned":
         return {"op": "mutate_returned", "slot": i, "getter": rng.choice(["get_values", "get_lower_limits", "get_upper_limits", "are_fixed", "get_default_values", "get_default_lower_limits", "get_default_upper_limits", "are_fixed_by_default"])}
     kind = rng.choice(["unknown_key", "odd_positional", "key_twice", "non_numeric", "none_value", "lower_ge_upper", "upper_le_lower",
@@ -448,15 +448,27 @@ def apply(state, rec):
     elif op == "sub_edit":
         if not isinstance(obj, Container):
             return None
-        subs = [(k, v) for k, v in obj.get_subcircuits().items() if v is not None and v.get_elements()]
-        if not subs:
-            return None
-        k, con = subs[0]
-        e = con.get_elements()[0]
-        key = sorted(e.get_values())[0]
-        e.set_values(**{key: rec["value"]})
-        stats["restarts"]["subcircuit_edit"] += 1
-        m["sub"][k] = con.to_string(17)
+        if rec.get("how", "value") == "append":
+            # in-place growth of one of this instance's sub-circuits (also the empty 'short' ones)
+            from pyimpspec import Resistor
+
+            subs = [(k, v) for k, v in sorted(obj.get_subcircuits().items()) if v is not None]
+            if not subs:
+                return None
+            k, con = subs[rec.get("which", 0) % len(subs)]
+            con.append(Resistor(R=rec["value"]))
+            stats["restarts"]["subcircuit_append"] += 1
+            m["sub"][k] = con.to_string(17)
+        else:
+            subs = [(k, v) for k, v in sorted(obj.get_subcircuits().items()) if v is not None and v.get_elements()]
+            if not subs:
+                return None
+            k, con = subs[rec.get("which", 0) % len(subs)]
+            e = con.get_elements()[0]
+            key = sorted(e.get_values())[0]
+            e.set_values(**{key: rec["value"]})
+            stats["restarts"]["subcircuit_edit"] += 1
+            m["sub"][k] = con.to_string(17)
     elif op == "mutate_returned":
         # aliasing action by the caller: a dictionary handed out by a getter is the caller's to scribble on
         d = getattr(obj, rec["getter"])()
